@@ -19,7 +19,10 @@ EXTRA_KW = ["z", "y", "w"]
 # quotes inside so that the source-range extraction is exercised
 CLOSED_POOL = ["0", "None", "(1, 2)", '"s,t"', "[3, 4][0]", "{'p': 1}", "-5", "'='", "(lambda: 3)()", '"q=1"']
 EXPR_POOL = ["0", "None", "(1, 2)", '"s,t"', "g(x0, 1)", "[3, 4][0]", "x0 if T else 2", "{'p': 1}",
-             "-5", "'='", "x0 == 7", "(lambda: 3)()", "T", "x0", '"q=1"', "g()", "not T", "x0 * 2 + 1"]
+             "-5", "'='", "x0 == 7", "(lambda: 3)()", "T", "x0", '"q=1"', "g()", "not T", "x0 * 2 + 1", "[]", "LEVEL", "[]", "LEVEL"]
+# expressions whose value at def time (as a default) differs from their value at call time (as an argument):
+# a fresh mutable object, a global rebound after the definition
+TIME_SENSITIVE = ("[]", "LEVEL")
 
 
 def fresh_value(k, j):
@@ -171,8 +174,10 @@ def gen_call_args(rng, params, star, kw, k, skip_first, valid=True, allow_star=T
     n = len(ps)
     j = [0]
 
-    def val():
+    def val(dflt=None):
         j[0] += 1
+        if dflt is not None and rng.random() < 0.3:
+            return dflt               # an argument spelled exactly like the default is still an argument
         if rng.random() < 0.7:
             return fresh_value(k, j[0])
         return rng.choice(EXPR_POOL)
@@ -180,7 +185,7 @@ def gen_call_args(rng, params, star, kw, k, skip_first, valid=True, allow_star=T
     npos = rng.randint(0, n)
     if rng.random() < 0.25:
         npos = n
-    pos = [val() for _ in range(npos)]
+    pos = [val(ps[i][1]) for i in range(npos)]
     if star and npos == n and rng.random() < 0.6:
         pos += [val() for _ in range(rng.randint(1, 3))]
     rest = ps[npos:]
@@ -190,7 +195,7 @@ def gen_call_args(rng, params, star, kw, k, skip_first, valid=True, allow_star=T
             if valid or rng.random() < 0.7:
                 kws.append((name, val()))
         elif rng.random() < 0.5:
-            kws.append((name, val()))
+            kws.append((name, val(dflt)))
     rng.shuffle(kws)
     if kw and rng.random() < 0.6:
         for name in rng.sample(EXTRA_KW, rng.randint(1, 2)):
@@ -259,7 +264,8 @@ def fmt_call(func, site, layout=0):
     return "%s(%s)" % (func, ", ".join(parts))
 
 
-PRELUDE = ("T = True\nx0 = 7\n\n\ndef g(*a):\n    return ('g',) + a\n\n\n"
+PRELUDE = ("T = True\nx0 = 7\nLEVEL = 1\n\n\ndef g(*a):\n    return ('g',) + a\n\n\n"
+           "def _t(x):\n    if isinstance(x, list):\n        x.append(len(x))\n        return tuple(x)\n    return x\n\n\n"
            "class Cfg(object):\n    val = 5\n\n\ncfg = Cfg()\n\n\n")
 
 
@@ -267,7 +273,7 @@ def body_expr(tag, params, star, kw, used, extra=()):
     items = [repr(tag)] + list(extra)
     for (n, _) in params:
         if n in used and n != "self":
-            items.append(n)
+            items.append("_t(%s)" % n)
     if star is not None and star in used:
         items.append(star)
     if kw is not None and kw in used:
@@ -290,12 +296,21 @@ def build_modules(case):
     elif kind == "method":
         m.append("class A(object):\n    def __init__(self, tag=0):\n        self.tag = tag\n\n"
                  "    def meth(%s):\n        return %s\n\n" % (fmt_params(params, star, kw, kwonly), body_expr("meth", params + kwonly, star, kw, used, extra)))
+    elif case.get("nested"):
+        # the class whose __init__ changes is nested in another class and also reached through instances of it
+        m.append("class Outer(object):\n    class A(object):\n        def __init__(%s):\n            self.v = %s\n\n" % (
+            fmt_params(params, star, kw, kwonly), body_expr("init", params + kwonly, star, kw, used, extra)))
+        for s in case["sites"]:
+            if s["style"] == "selfctor":
+                m.append("    def make%d(self):\n        v%d = %s\n        return v%d.v\n\n" % (
+                    s["k"], s["k"], fmt_call("self.A", s, s["layout"]).replace("\n", "\n    "), s["k"]))
+        m.append("    def tag(self):\n        return 'outer'\n\n\not = Outer()\n\n")
     else:
         m.append("class A(object):\n    def __init__(%s):\n        self.v = %s\n\n" % (
-            fmt_params(params, star, kw, kwonly), body_expr("init", params + kwonly, star, kw, used)))
-    mods = {"m.py": m, "u1.py": ["import m\nfrom m import *\n\n"], "u2.py": ["import m as mm\nfrom m import T, x0, g\n\n"]}
+            fmt_params(params, star, kw, kwonly), body_expr("init", params + kwonly, star, kw, used, extra)))
+    mods = {"m.py": m, "u1.py": ["import m\nfrom m import *\n\n"], "u2.py": ["import m as mm\nfrom m import T, x0, g, LEVEL, cfg\n\n"]}
     # methods of A that contain call sites must come before the class ends
-    if kind in ("method", "init"):
+    if kind in ("method", "init") and not case.get("nested"):
         for s in case["sites"]:
             if s["style"] == "self":
                 m.append("    def other%d(self):\n        v%d = %s\n        return v%d\n\n" % (
@@ -307,6 +322,7 @@ def build_modules(case):
                         s["k"], s["k"], fmt_call("A.__init__", s, s["layout"])))
         if kind == "method":
             m.append("\no = A()\n\n")
+    m.append("LEVEL = 5      # rebound after the definition: a default spelled LEVEL is 1, an argument spelled LEVEL is 5\n\n")
     for s in case["sites"]:
         k = s["k"]
         out = mods[s["module"]]
@@ -320,6 +336,9 @@ def build_modules(case):
             continue
         if s["style"] == "subinit":
             out.append("print('s%d', B%d().v)\n" % (k, k))
+            continue
+        if s["style"] == "selfctor":
+            out.append("print('s%d', ot.make%d())\n" % (k, k))
             continue
         if s["style"] == "subctor":
             out.append("class S%d(%s):\n    pass\n\n\n" % (k, {"m.py": "A", "u1.py": "m.A", "u2.py": "mm.A"}[s["module"]]))
@@ -339,6 +358,9 @@ SITE_STYLES = {
                ("u1.py", "m.o.meth", "inst"), ("u1.py", "o.meth", "inst"), ("u2.py", "mm.A.meth", "cls"), ("u2.py", "mm.A(5).meth", "inst")],
     "init": [("m.py", "A", "ctor"), ("u1.py", "A", "ctor"), ("u1.py", "m.A", "ctor"), ("u2.py", "mm.A", "ctor"),
              ("m.py", "A.__init__", "subinit")],
+    # class nested in a class: reached through the outer class, through instances of it, through self
+    "nested": [("m.py", "Outer.A", "ctor"), ("m.py", "ot.A", "ctor"), ("m.py", "self.A", "selfctor"), ("m.py", "Outer().A", "ctor"),
+               ("u1.py", "Outer.A", "ctor"), ("u1.py", "m.ot.A", "ctor"), ("u2.py", "mm.Outer.A", "ctor"), ("u2.py", "mm.ot.A", "ctor")],
 }
 
 
@@ -354,14 +376,20 @@ def gen_case(rng, wild=False, nsites=None, star_calls=True):
         if nxt is None:
             break
         cur = nxt
+    if any(ch[0] == "inl" for ch in changers):
+        # inlining a default moves its evaluation from def time to call time by design: keep time-sensitive
+        # expressions out of the defaults of such cases
+        params = [(n, "0" if d in TIME_SENSITIVE else d) for (n, d) in params]
     removed = ever_removed(params, star, kw, changers)
     used = [x for x in ([p[0] for p in params] + [y for y in (star, kw) if y]) if x not in removed and rng.random() < 0.9]
     case = {"kind": kind, "params": params, "star": star, "kw": kw, "used": used, "changers": changers, "sites": []}
+    if kind == "init" and rng.random() < 0.4:
+        case["nested"] = True
     ns = nsites if nsites is not None else rng.choice([1, 2, 3, 4, 5, 8])
     for k in range(1, ns + 1):
-        module, func, style = rng.choice(SITE_STYLES[kind])
+        module, func, style = rng.choice(SITE_STYLES["nested" if case.get("nested") else kind])
         implicit = style in ("inst", "self")
-        ctor = style == "ctor"
+        ctor = style in ("ctor", "selfctor")
         skip = 1 if kind in ("method", "init") else 0      # explicit receivers are prepended below
         invalid = wild and rng.random() < 0.15
         s = gen_call_args(rng, params, star, kw, k, skip, valid=not invalid, allow_star=star_calls)
@@ -369,7 +397,7 @@ def gen_case(rng, wild=False, nsites=None, star_calls=True):
             recv = "o" if style == "cls" and module == "m.py" else ("self" if style == "subinit" else ("mm.o" if module == "u2.py" else "o"))
             s["pos"] = [recv] + s["pos"]
         s.update(k=k, module=module, func=func, style=style, implicit=implicit, ctor=ctor,
-                 infunc=(style not in ("self", "subinit") and rng.random() < 0.3),
+                 infunc=(style not in ("self", "subinit", "selfctor") and rng.random() < 0.3),
                  layout=rng.choice([0, 0, 0, 1, 2, 3]))
         case["sites"].append(s)
     return case
@@ -401,9 +429,12 @@ def target_offset(case, src):
     return src.index(name) + 4
 
 
-def run_rope(case, modules, target=None):
-    """Returns (new_modules | None, error_name | None)."""
+def run_rope(case, modules, target=None, stop_at=None, events=None):
+    """Returns (new_modules | None, error_name | None).
+    stop_at = k: a real TaskHandle is passed whose k-th notification (job set created, job started, job finished)
+    stops it; events (a list) receives the number of notifications seen."""
     from rope.base.project import Project
+    from rope.base import taskhandle
     from rope.refactor.change_signature import ChangeSignature
     d = tempfile.mkdtemp(prefix="ropeverif-")
     try:
@@ -413,12 +444,24 @@ def run_rope(case, modules, target=None):
                 project.root.create_file(fn).write(src)
             res = project.get_resource("m.py")
             off = target_offset(case, modules["m.py"]) if target is None else target
+            kwargs = {}
+            if stop_at is not None or events is not None:
+                handle = taskhandle.TaskHandle("change signature")
+                seen = [0]
+
+                def observer():
+                    seen[0] += 1
+                    if stop_at is not None and seen[0] == stop_at and not handle.is_stopped():
+                        handle.stop()
+                handle.add_observer(observer)
+                kwargs["task_handle"] = handle
             try:
-                changes = ChangeSignature(project, res, off).get_changes(make_changers(case["changers"]))
-            except (IndexError, AssertionError, KeyError, AttributeError, TypeError, ValueError, SyntaxError) as e:
+                changes = ChangeSignature(project, res, off).get_changes(make_changers(case["changers"]), **kwargs)
+            except Exception as e:   # IndexError / AssertionError of the changers, rope's own refusals, InterruptedTaskError
                 return None, type(e).__name__
-            except Exception as e:   # rope's own refusals
-                return None, type(e).__name__
+            finally:
+                if events is not None:
+                    events.append(seen[0])
             new = dict(modules)
             for ch in changes.changes:
                 new[ch.resource.path] = ch.new_contents
@@ -569,10 +612,33 @@ def find_line(src, prefix_re):
 
 
 def extract_site_text(src, k):
-    """the right-hand side of `v<k> = ...` (single line after the refactoring)"""
+    """the right-hand side of `v<k> = ...`: the whole logical line (a call the refactoring left alone may
+    still span several physical lines), comments dropped and continuation lines joined by one space"""
     import re
-    m = re.search(r"^[ \t]*v%d = (.*)$" % k, src, re.M)
-    return m.group(1) if m else None
+    m = re.search(r"^[ \t]*v%d = " % k, src, re.M)
+    if not m:
+        return None
+    rest = src[m.end():]
+    out, depth = [], 0
+    pos = 0
+    try:
+        toks = list(tokenize.generate_tokens(io.StringIO(rest).readline))
+    except (tokenize.TokenError, IndentationError, SyntaxError):
+        return rest.split("\n", 1)[0]
+    lines = rest.split("\n")
+    prev_end = (1, 0)
+    for t in toks:
+        if t.type == tokenize.NEWLINE or t.type == tokenize.ENDMARKER:
+            break
+        if t.type in (tokenize.COMMENT, tokenize.NL):
+            continue
+        if t.start[0] == prev_end[0]:
+            out.append(lines[t.start[0] - 1][prev_end[1]:t.start[1]])
+        elif out:
+            out.append(" ")
+        out.append(t.string)
+        prev_end = t.end
+    return "".join(out)
 
 
 def extract_def_line(case, src):
@@ -648,16 +714,24 @@ def call_actuals(call, site):
     return pos, kws
 
 
+class BoundSources(dict):
+    """parameter -> source text of what it receives; .defaulted = parameters filled by their default"""
+    def __init__(self):
+        dict.__init__(self)
+        self.defaulted = set()
+
+
 def bind_sources(sig, pos, kws):
     names = [k for k, _ in kws]
     if len(set(names)) != len(names):
         raise TypeError("repeated keyword")
     ba = sig.bind(*pos, **dict(kws))
     ba.apply_defaults()
-    out = {}
+    out = BoundSources()
     for n, v in ba.arguments.items():
         if isinstance(v, str) and v.startswith("DEFAULT:"):
             v = v[len("DEFAULT:"):]
+            out.defaulted.add(n)
         out[n] = v
     return out
 
@@ -697,6 +771,11 @@ def oracle_site(case, oc, nc, old_sig, new_sig, site):
                 continue
             if ob[n] != nb[n]:
                 return "fail", "v%d: parameter %s received %r before and %r after" % (k, n, ob[n], nb[n])
+            # a default is evaluated when the def runs, an argument at the call: equal spelling is not enough
+            if n not in ob.defaulted and n in nb.defaulted:
+                return "fail", "v%d: the explicit argument %r of %s was dropped in favour of the (def-time) default" % (k, ob[n], n)
+            if n in ob.defaulted and n not in nb.defaulted and not any(ch[0] == "inl" for ch in case["changers"]):
+                return "fail", "v%d: parameter %s took its default before and is passed %r explicitly now (no default inliner asked for it)" % (k, n, nb[n])
     return "ok", nb
 
 
@@ -759,14 +838,13 @@ def gen_beyond(rng):
             case["unmodelled"] = True
             return case
         if t == "subctor":
-            if case["kind"] != "init":
+            if case["kind"] != "init" or case.get("nested"):
                 continue
             s = case["sites"][0]
             if s["style"] != "ctor":
                 continue
             s["style"] = "subctor"
             s["func"] = "S%d" % s["k"]
-            case["unmodelled"] = True
             return case
         if t == "starfirst":
             s = case["sites"][0]
